@@ -43,6 +43,15 @@ def eventDelineate (inp : Bytes) : Outcome Bytes :=
     | .err => .err
     | .panic => .panic
 
+/-- the decision of `Event::delineate` as a function of the first bytes and the length of its input
+(what it returns for a slice of `total` bytes beginning with `head`): the length of the event -/
+def eventDelineateLen (head : Bytes) (total : Nat) : Outcome Nat :=
+  if total < 152 then .err
+  else match rd32 head 0 with
+    | .ok len => if total < len then .err else .ok len
+    | .err => .err
+    | .panic => .panic
+
 /-- every accessor of `Event` applied to the bytes `b` (each slicing step can panic) -/
 def eventDecode (b : Bytes) : Outcome EventRec :=
   match rd16 b 4, rd64 b 8, slice b 16 32, slice b 48 32, slice b 80 64 with
